@@ -145,7 +145,8 @@ def link_like_strategy(kind, name=None):
                 st.fixed_dictionaries({'sec': st.just('features'), 'names': st.lists(st.sampled_from(['scfix', 'extdih', 'collagen']),
                                                                                      min_size=1, max_size=2)}),
                 st.fixed_dictionaries({'sec': st.just('non-edges'),
-                                       'pairs': st.lists(st.tuples(idx, idx).map(list), min_size=1, max_size=2)}),
+                                       'pairs': st.lists(st.tuples(idx, idx).map(list), min_size=1, max_size=2),
+                                       'styles': st.lists(st.sampled_from(['prefix', 'attr', 'both']), min_size=4, max_size=4)}),
                 st.fixed_dictionaries({'sec': st.just('molmeta'),
                                        'items': st.lists(st.tuples(st.sampled_from(['extdih', 'scfix', 'tag']),
                                                                    st.sampled_from([True, False, 3, 'x'])).map(list),
@@ -349,8 +350,10 @@ def serialise(case):
                 elif name == 'features':
                     emit(list(sub['names']))
                 elif name == 'non-edges':
-                    for i, j in sub['pairs']:
-                        emit([ref_token(nodes[i], 'prefix', lay, show_attrs=False), ref_token(nodes[j], 'prefix', lay)])
+                    styles = sub.get('styles') or ['prefix'] * 4
+                    for pidx, (i, j) in enumerate(sub['pairs']):
+                        emit([ref_token(nodes[i], styles[2 * pidx], lay, show_attrs=False),
+                              ref_token(nodes[j], styles[2 * pidx + 1], lay)])
                 elif name == 'molmeta':
                     for k, v in sub['items']:
                         emit([k, jdump(v)])
